@@ -58,7 +58,7 @@ def c02(run):
 
 def c07(run):
     return engine_prop(run, ["MC_expiry.cfg"] if run.tier == "thorough" else ["MC_expiry_q.cfg"],
-        [dict(profile="expiry", n=n(run, 40, 400))],
+        [dict(profile="expiry", n=n(run, 40, 400)), dict(profile="expiry-rules", n=n(run, 30, 300))],
         "seeded histories with ttl (number, duration string) and expires (number, RFC3339) facts and rules, real sleeps "
         "across the expiry instant, reloads, reads by get/search/event; TLC checks every result against Engine with the "
         "recorded UNIX second: expires instants in returned bodies, never-seen-after, must-purge from storage once observed, "
